@@ -134,6 +134,10 @@ def get_base(bid, seed, obs, tier="quick"):
         par = dict(synthetic_params(cfg))
         if obs in ("boo3d", "boo2d"):
             par["nl"] = [S.pair_stats(cfg, f, knn=[par["knn"]])["knn"][par["knn"]] for f in range(len(cfg["frames"]))]
+        if obs in ("relaxx", "relaxu"):
+            # cage-relative displacements: ragged lists (1 or 2 nearest of the base frame, alternating by base particle) - unequal
+            # coordination numbers, so the table read from the file is zero-padded (0 is also the first particle's index)
+            par["cage_nl"] = [[nb[: 1 + (b % 2)] for b, nb in enumerate(S.pair_stats(cfg, f, knn=[2])["knn"][2])] for f in range(len(cfg["frames"]))]
         if obs == "boo3d" and tier == "thorough" and depth_for(obs, bid, tier) == 2:
             par["w_l"] = [4, 6]  # sympy 3j symbols at l=6 cost 0.2 s per call: only on the depth-2 bases
         steps = [100 * (f + 1) for f in range(len(cfg["frames"]))]
@@ -427,13 +431,20 @@ def _o_relax(mode):
         # a per-frame selection tied to the PARTICLES (base rows 0,2,3,5,...), carried along by the relabelling
         sel = np.array([[(b + f) % 3 != 1 for b in el["perm"]] for f in range(F)])
         out = {}
-        for cal, cond in (("slow", None), ("fast", sel)):
+        runs = [("slow", None, None), ("fast", sel, None)]
+        if "cage_nl" in B["par"]:
+            write_neighbor_file("c07_cage.dat", [S.map_neighbors(fr, el["perm"]) for fr in B["par"]["cage_nl"]])
+            runs.append(("cage", None, "c07_cage.dat"))
+        for name, cond, nfile in runs:
+            cal = "fast" if name == "fast" else "slow"
             if mode == "x":
-                dyn = Dynamics(x_snapshots=sn, dt=0.002, ppp=np.array(cfg["ppp"]), diameters=dia, a=dp["a"], cal_type=cal)
+                dyn = Dynamics(x_snapshots=sn, dt=0.002, ppp=np.array(cfg["ppp"]), diameters=dia, a=dp["a"], cal_type=cal, neighborfile=nfile or "")
             else:
-                dyn = Dynamics(xu_snapshots=sn, dt=0.002, ppp=np.zeros(cfg["d"], dtype=int), diameters=dia, a=dp["a"], cal_type=cal)
+                dyn = Dynamics(xu_snapshots=sn, dt=0.002, ppp=np.zeros(cfg["d"], dtype=int), diameters=dia, a=dp["a"], cal_type=cal, neighborfile=nfile or "")
             res = dyn.relaxation(qconst=2 * np.pi, condition=cond)
-            out[cal] = {c: res[c].values.astype(float) for c in res.columns}
+            out[name] = {c: res[c].values.astype(float) for c in res.columns}
+        if "cage_nl" in B["par"]:
+            os.remove("c07_cage.dat")
         return out
 
     return o
@@ -626,8 +637,8 @@ RULES = {
     "tetra": "q8_tetrahedral per particle, two frames; periodic bases and open clusters (+rotations)",
     "s2": "S2.particle_s2 per particle (species-dependent widths)",
     "hessian": "HessianMatrix.diagonalize_hessian eigenvalues (from omega) for LJ/Hertz/IPL with unequal masses; PR of isolated modes",
-    "relaxx": "Dynamics(x_snapshots).relaxation rows (slow/all particles, fast/per-frame selection), three frames, image shifts of single frames",
-    "relaxu": "Dynamics(xu_snapshots).relaxation rows (slow/all particles, fast/per-frame selection), three frames",
+    "relaxx": "Dynamics(x_snapshots).relaxation rows (slow/all particles, fast/per-frame selection, cage-relative with ragged 1-/2-nearest lists), three frames, image shifts of single frames",
+    "relaxu": "Dynamics(xu_snapshots).relaxation rows (slow/all particles, fast/per-frame selection, cage-relative with ragged lists), three frames",
     "shape": "gyration_tensor descriptors of open clusters (3 frames, whole cluster and first five particles) under rotations",
     "pr": "participation_ratio of displacement fields of open clusters under rotations",
 }
